@@ -162,7 +162,7 @@ TNext ==
                \* links reported by REMOVED slots are not part of the specification's state: such a
                \* mismatch is reported (C12) but validation continues, so that it cannot hide a later one
                IF m \ SoftClauses # {} THEN Stop(m)
-               ELSE /\ (m = {} \/ PrintT(<<"TRACE-SOFT", l, m>>))
+               ELSE /\ (IF m = {} THEN TRUE ELSE PrintT(<<"TRACE-SOFT", l, m>>))
                     /\ DoP(c, FALSE) /\ l' = l + 1 /\ bad' = bad
 
 TSpec == TInit /\ [][TNext]_tvars
